@@ -45,6 +45,14 @@ def run(ctx):
         "at once so that crash evidence stays flush-per-event); ZReadN results are documented as aliasing "
         "and are copied at once",
         "a reset event of a reused buffer carries the Len() it really has after Reset() / draining (spec: 0)",
+        "how a source ends (io.EOF, io.ErrUnexpectedEOF, a foreign error, alone or together with the last "
+        "bytes) and (0, nil) reads are fragmentation: every kind means 'no more bytes'; transient source "
+        "errors in the middle of the data are outside the property",
+        "all decoders of one lifetime decode from the same byte array (srcmut: it must stay as it was)",
+        "every call runs under a 20 s watchdog: a call that does not return is logged as pan = 2 (rejected) "
+        "and the harness stops calling; a panic inside a constructor / Len / Bytes / Reset is a `panic` event",
+        "ReadN / ZReadN with n <= 0 are issued only after the first refusal, where 'no panic' is all that is "
+        "required; limits logged as 2^31-1 stand for the real arguments 2^31-1, 2^31 and 2^32-1 in turn",
     ]
     return ctx.finish(
         rule="plans = TLC simulation of TypedStream.tla (13 scalar types x 4 boundary values, strings, raw, "
@@ -53,8 +61,9 @@ def run(ctx):
              "windows, overhang), read back on the written buffer itself and on copies truncated at every "
              "byte (sampled above 36 bytes), stream readers over sources delivering 1,2,3,4,5,7,8,9,16 "
              "bytes, everything, or irregular pieces; one BufferX lives through 1..3 such write / read-back "
-             "cycles (emptied by Reset() or by draining to io.EOF; small capacities force data moves), plans "
-             "run three to a buffer; arbitrary / damaged bytes to every reader",
+             "cycles (emptied by Reset() or by draining to io.EOF; small capacities force data moves; some lifetimes write nothing or are given "
+             "up after the writes; while a buffer is read back more items are written behind the unread ones), "
+             "plans run three to a buffer; every constructor; sources that end in 4 ways and return (0, nil); arbitrary / damaged bytes to every reader",
         explanation="every typed read must return the written token and the remaining length the items "
                     "imply, a truncated or refused item must give no value from any reader, rewrite images "
                     "must differ exactly on the addressed bytes, every ReaderX must answer as BufferX, a value a "
